@@ -256,11 +256,24 @@ func C08(c *core.Ctx) {
 				}
 				l, isLen := core.LenOf(x)
 				k, isC := core.ConstInt(y)
-				if !isLen || !isC || k != 0 {
+				if !isC || k != 0 {
 					return 0, 0
 				}
-				if _, ok := core.FieldOf(l, "pitEntries"); !ok {
-					return 0, 0
+				// … or the new length itself, computed before the shrink and used as its
+				// bound: last := len(entries)-1; entries = entries[:last]; if last == 0
+				newLen := false
+				if _, v, okS := storeToField(shrink, "pitCsTreeNode", "pitEntries"); okS {
+					if sl, isSl := core.Strip(v).(*ssa.Slice); isSl && sl.High != nil && core.StripConv(sl.High) == core.StripConv(x) {
+						newLen = true
+					}
+				}
+				if !newLen {
+					if !isLen {
+						return 0, 0
+					}
+					if _, ok := core.FieldOf(l, "pitEntries"); !ok {
+						return 0, 0
+					}
 				}
 				switch op {
 				case token.EQL, token.LEQ:
@@ -272,7 +285,7 @@ func C08(c *core.Ctx) {
 			}}
 			okPrune := false
 			for _, f := range core.EdgeFacts(rm, empty) {
-				if f.Holds && core.ReachableFrom(core.After(shrink), f.E.To.Instrs[0]) {
+				if f.Holds && (core.ReachableFrom(core.After(shrink), f.E.To.Instrs[0])) {
 					okPrune = core.MustFollowDeep(rm, core.Point{Block: f.E.To, Idx: 0}, func(in ssa.Instruction) bool {
 						_, ok := core.IsCall(in, core.CalleeID{Pkg: "fw/table", Recv: "pitCsTreeNode", Name: "pruneIfEmpty"})
 						return ok
@@ -504,9 +517,11 @@ func C08(c *core.Ctx) {
 					return
 				}
 				nRm++
-				fr := core.MustFollow(fn, core.After(in), func(x ssa.Instruction) bool {
+				// (the two updates are independent: either order within the same step)
+				okIdx := coOccur(fn, in, func(x ssa.Instruction) bool {
 					return isMapDelete(x, "locations") || isMapInsert(x, "locations")
-				}, nil)
+				})
+				fr := struct{ OK bool }{okIdx}
 				c.Decide(fr.OK, "R8.3", "lru-index-follows-queue:"+core.FuncName(fn), c.Pos(in), "the removal of a queue element is followed by an update of the position index", core.FuncName(fn)+" removes an element from the LRU queue without updating the position index: one record (and its detached list element) stays behind per Data name ever evicted")
 			})
 		}
